@@ -16,7 +16,9 @@ import (
 type Script struct {
 	f      *TermFactory
 	Goals  []*Term
-	Extra  []*Term // quantified axioms as terms
+	Extra  []*Term // quantified axioms as terms (relevant to at least one goal)
+	extraSyms []map[string]bool // specification symbols of each axiom in Extra
+	Cover  *Term
 	header string
 }
 
@@ -106,10 +108,68 @@ func (c *FnCtx) buildScript() *Script {
 	for i, ax := range c.termAxioms {
 		if used[i] {
 			s.Extra = append(s.Extra, ax)
+			s.extraSyms = append(s.extraSyms, axSyms[i])
 		}
 	}
 	_ = collect
 	return s
+}
+
+// relevantAxioms: the axioms that (transitively) share an uninterpreted specification symbol with the given
+// formulas. Axioms about symbols a goal does not mention cannot help its proof, and recursive definitions
+// among them cost the solvers time (matching loops).
+func (s *Script) relevantAxioms(goals []*Term) []*Term {
+	if len(s.extraSyms) != len(s.Extra) {
+		return s.Extra
+	}
+	syms := map[string]bool{}
+	walked := map[int]bool{}
+	var walk func(t *Term)
+	walk = func(t *Term) {
+		if walked[t.id] {
+			return
+		}
+		walked[t.id] = true
+		if strings.HasPrefix(t.op, "spec$") {
+			syms[t.op] = true
+		}
+		for _, a := range t.args {
+			walk(a)
+		}
+	}
+	for _, g := range goals {
+		walk(g)
+	}
+	used := make([]bool, len(s.Extra))
+	for changed := true; changed; {
+		changed = false
+		for i := range s.Extra {
+			if used[i] {
+				continue
+			}
+			hit := len(s.extraSyms[i]) == 0
+			for n := range s.extraSyms[i] {
+				if syms[n] {
+					hit = true
+					break
+				}
+			}
+			if hit {
+				used[i] = true
+				changed = true
+				for n := range s.extraSyms[i] {
+					syms[n] = true
+				}
+			}
+		}
+	}
+	var out []*Term
+	for i, ax := range s.Extra {
+		if used[i] {
+			out = append(out, ax)
+		}
+	}
+	return out
 }
 
 func (f *TermFactory) declText() string {
@@ -157,7 +217,8 @@ func (s *Script) TextWith(sel []int, negate bool, with []*Term) string {
 		}
 	}
 	roots := append([]*Term{}, f.ranges...)
-	roots = append(roots, s.Extra...)
+	extra := s.relevantAxioms(append(append([]*Term{}, goals...), with...))
+	roots = append(roots, extra...)
 	hints := extHints(f, goals)
 	hints = append(hints, with...)
 	roots = append(roots, hints...)
@@ -165,7 +226,7 @@ func (s *Script) TextWith(sel []int, negate bool, with []*Term) string {
 	p := &Printer{f: f, defined: map[int]string{}, out: &strings.Builder{}, refs: map[int]int{}}
 	txt := p.Define(roots...)
 	sb.WriteString(p.out.String())
-	nr := len(f.ranges) + len(s.Extra) + len(hints)
+	nr := len(f.ranges) + len(extra) + len(hints)
 	for i := 0; i < nr; i++ {
 		fmt.Fprintf(&sb, "(assert %s)\n", txt[i])
 	}
